@@ -7,14 +7,23 @@
 (***************************************************************************)
 EXTENDS ChainServer, Json
 
-CONSTANTS Handles, Bodies, ParentChoices, Calls, MaxLen, Emit, DevFork
+CONSTANTS Handles, Bodies, ParentChoices, Calls, MaxLen, Emit, DevFork,
+          SingleSnap,   \* TRUE: the backend holds one snapshot, the last one stored (git)
+          TrimRule,     \* what the backend discards after storing a snapshot for version v:
+                        \*   "none"; "covered": old versions at or before v (git cleanup);
+                        \*   "allold": every old version (deviation, anti-vacuity)
+          OlderSnaps    \* FALSE: the generator does not store a snapshot for a version older
+                        \* than that of a snapshot already held once something was discarded
 
-VARIABLE h
-mvars == <<cvars, h>>
+VARIABLES h,
+          oldEpoch,     \* versions accepted now count as older than the retention age
+          olds          \* ids of such versions
+mvars == <<cvars, h, oldEpoch, olds>>
 
 Resolve(pc) ==
   CASE pc = "latest"  -> Latest
     [] pc = "prev"    -> IF chain = <<>> THEN 0 ELSE chain[Len(chain)].parent
+    [] pc = "first"   -> IF chain = <<>> THEN 0 ELSE chain[1].id
     [] pc = "nil"     -> 0
     [] pc = "unknown" -> -7
 
@@ -26,25 +35,44 @@ AV(hd) == \E pc \in ParentChoices, b \in Bodies :
      \* DevFork (anti-vacuity): a server that also accepts the parent of the latest version
      IF Accepts(p) \/ (DevFork /\ pc = "prev" /\ chain # <<>>)
      THEN /\ chain' = Append(chain, [parent |-> p, id |-> Len(chain) + 1, body |-> b])
-          /\ UNCHANGED <<snaps, ghost>>
-     ELSE UNCHANGED cvars
+          /\ olds' = IF oldEpoch THEN olds \cup {Len(chain) + 1} ELSE olds
+          /\ UNCHANGED <<snaps, ghost, gone>>
+     ELSE UNCHANGED <<cvars, olds>>
   /\ h' = Append(h, Ev("AV", hd, pc, b))
+  /\ UNCHANGED oldEpoch
 
 GC(hd) == \E pc \in ParentChoices :
-  /\ "GC" \in Calls /\ UNCHANGED cvars /\ h' = Append(h, Ev("GC", hd, pc, "-"))
+  /\ "GC" \in Calls /\ UNCHANGED <<cvars, oldEpoch, olds>> /\ h' = Append(h, Ev("GC", hd, pc, "-"))
 
-AS(hd) == \E pc \in {"latest", "prev"}, b \in Bodies :
+Trimmed(v) ==
+  CASE TrimRule = "none"    -> {}
+    [] TrimRule = "covered" -> {id \in olds : Pos(id) <= Pos(v)}
+    [] TrimRule = "allold"  -> olds
+
+AS(hd) == \E pc \in {"latest", "prev"} \cup (ParentChoices \cap {"first"}), b \in Bodies :
   /\ "AS" \in Calls /\ Resolve(pc) >= 1
-  /\ AddSnapshot(Resolve(pc), b)
+  /\ OlderSnaps \/ gone = {} \/ \A s \in snaps : Pos(Resolve(pc)) >= Pos(s.ver)
+  /\ snaps' = (IF SingleSnap THEN {} ELSE {s \in snaps : s.ver # Resolve(pc)})
+                 \cup {[ver |-> Resolve(pc), body |-> b]}
+  /\ gone' = gone \cup Trimmed(Resolve(pc))
+  /\ UNCHANGED <<chain, ghost, oldEpoch, olds>>
   /\ h' = Append(h, Ev("AS", hd, pc, b))
 
-GS(hd) == "GS" \in Calls /\ UNCHANGED cvars /\ h' = Append(h, Ev("GS", hd, "-", "-"))
+GS(hd) == "GS" \in Calls /\ UNCHANGED <<cvars, oldEpoch, olds>> /\ h' = Append(h, Ev("GS", hd, "-", "-"))
 
-Reopen(hd) == "Reopen" \in Calls /\ UNCHANGED cvars /\ h' = Append(h, Ev("Reopen", hd, "-", "-"))
+Reopen(hd) == "Reopen" \in Calls /\ UNCHANGED <<cvars, oldEpoch, olds>> /\ h' = Append(h, Ev("Reopen", hd, "-", "-"))
               /\ (h = <<>> \/ h[Len(h)].a # "Reopen")
 
-MInit == CInit /\ h = <<>>
-MNext == Len(h) < MaxLen /\ \E hd \in Handles : AV(hd) \/ GC(hd) \/ AS(hd) \/ GS(hd) \/ Reopen(hd)
+(* from now on versions are recent (younger than the retention age) *)
+Epoch(hd) == /\ "Epoch" \in Calls /\ oldEpoch /\ chain # <<>>
+             /\ oldEpoch' = FALSE
+             /\ UNCHANGED <<cvars, olds>> /\ h' = Append(h, Ev("Epoch", hd, "new", "-"))
+
+MInit == CInit /\ h = <<>> /\ oldEpoch = ("Epoch" \in Calls) /\ olds = {}
+MNext == Len(h) < MaxLen /\ \E hd \in Handles : AV(hd) \/ GC(hd) \/ AS(hd) \/ GS(hd) \/ Reopen(hd) \/ Epoch(hd)
+
+(* every discarded version is covered by a snapshot the server still holds *)
+MReconstructible == Reconstructible
 
 MEmit == (Emit /\ Len(h) = MaxLen) => PrintT(<<"REPLAY", ToJson(h)>>)
 =============================================================================
